@@ -207,6 +207,8 @@ class VerifyService:
                 pk=verification_key,
             )
             if verify:
+                # Only a ticket whose message verified is remembered for later digest-signed messages
+                self.certificate_library.add_authorization_ticket(authorization_ticket)
                 plain_message = signed_data["tbsData"]["payload"]["data"]["content"][1]
                 if self.sign_service is not None:
                     if "inlineP2pcdRequest" in header_info:
